@@ -283,6 +283,7 @@ type ATGenOpts struct {
 	AllowFindings   bool // also generate statement shapes that are known findings (class-tagged)
 	NullableVals    bool
 	StrPK           bool
+	PKUpdates       bool // UPDATE statements that name a primary-key column
 	ContinueOnError bool // explicit transactions may ignore a failing INSERT and commit
 	BigInts         bool // integer columns cluster at one large magnitude
 	CollideKeys     bool // composite integer keys whose parts concatenate to the same text: (1,10)/(11,0), (1,11)/(11,1)
@@ -536,6 +537,27 @@ func genUpdate(r *Rng, sc *ATSchema, o ATGenOpts) *ATStmt {
 		st.Sets = append(st.Sets, s)
 	}
 	st.Where = genWhere(r, sc, st, o)
+	if o.PKUpdates && sc.Cols[sc.PK[0]].Typ == 'i' && r.Chance(20) {
+		// an UPDATE that names a key column: `SET id = v WHERE id = v` changes nothing and is fine,
+		// `SET id = <fresh key> WHERE id = v` would move the row and must be rejected
+		v := ATVal{K: 'i', I: int64(r.Intn(12))}
+		nv := v
+		if r.Chance(65) {
+			nv = ATVal{K: 'i', I: int64(900 + r.Intn(50))}
+		}
+		pk := sc.PK[0]
+		e := &ATExpr{K: 'l', Val: nv}
+		if r.Bool() {
+			e = &ATExpr{K: 'a', Val: nv}
+		}
+		set := ATSet{Col: pk, Plus: -1, E: e}
+		if r.Bool() {
+			st.Sets = append([]ATSet{set}, st.Sets...)
+		} else {
+			st.Sets = append(st.Sets, set)
+		}
+		st.Where = &ATCond{Op: "cmp:e", E: []*ATExpr{{K: 'c', Col: pk}, {K: 'a', Val: v}}}
+	}
 	return st
 }
 
